@@ -1,4 +1,4 @@
-"""registry — which rules decide which clauses of which property (DESIGN §5)."""
+"""registry — which rules decide which clauses of which property (DESIGN §5, §12)."""
 import copy
 
 import sxlib
@@ -14,123 +14,131 @@ def _memo(name, cfg, fn):
     return [copy.copy(o) for o in obs], dict(st or {})
 
 
-def _rule(name, modname, func="obligations", **kw):
+RULE_TEXT = {}
+
+
+def _rule(name, modname, func="obligations", text="", **kw):
     def run(cfg, tier):
         mod = __import__(modname)
         return _memo(name, cfg, lambda c: getattr(mod, func)(sxlib.program(c)))
     d = {"name": name, "run": run}
     d.update(kw)
+    RULE_TEXT[name] = text
     return d
 
 
-R_CHK = _rule("R-CHK", "r_chk")
-R_OBL = _rule("R-OBL", "r_obl")
-R_RED = _rule("R-RED", "r_obl", "red_obligations")
-R_FLOW = _rule("R-FLOW", "r_flow")
+R_CHK = _rule("R-CHK", "r_chk", text="the failure indicator of every fallible decode (overflow flag / zero return; seeds = the repository's decoders, closed over "
+              "wrappers by fixpoint) reaches a branch, the verdict or an out-parameter, and on every path it is read before it is overwritten or a non-zero return")
+R_OBL = _rule("R-OBL", "r_obl", text="each untrusted parameter is still consumed, at its byte offset, by the decoders / validity tests frozen in tables/obligations.json "
+              "(interprocedural parameter-rooted value flow `pflow`)")
+R_RED = _rule("R-RED", "r_obl", "red_obligations", text="raw caller bytes are decoded by reduction (NULL overflow pointer, fe_set_b32_mod) only in the roles listed in tables/red_roles.json")
+R_FLOW = _rule("R-FLOW", "r_flow", text="named values arrive unmodified / sanitised: RFC 6979 is keyed with the scalar-decoded message; msg/msglen and key counts pass "
+               "unchanged to the absorbing hash / sort; sha256_write and sha256_transform move cursor and count together by the bytes consumed")
+R_CAP = _rule("R-CAP", "r_cap", all_for=("C07",), text="armed memcpy/memset lengths, variable array indexes, shift amounts and clz/ctz arguments stay within capacity / width / "
+              "non-zero on every path (interval engine `giv`; armed = proved on the reviewed tree)")
+R_RING = _rule("R-RING", "r_cap", "ring_obligations", all_for=("C07",), text="every ring size handed to secp256k1_borromean_verify is >= 1")
+R_WRAP = _rule("R-WRAP", "r_cap", "wrap_obligations", text="armed 64-bit additions / multiplications of header-derived quantities are range-proved, guarded or post-checked")
+R_INB = _rule("R-INB", "r_inb", text="armed reads of a (pointer, length) input buffer are dominated by a guard establishing length >= offset + bytes read (symbolic linear-form prover)")
+R_ZOF = _rule("R-ZOF", "zof", text="the listed output objects are all-zero at every return that can yield 0 (zero-on-failure dataflow `zof`: lattice Z / C(v) / untouched / unknown, "
+              "branch facts, path-sensitive joins, bottom-up helper summaries)")
+R_BIND = _rule("R-BIND", "r_bind", text="point comparisons compare the full point (x-only primitive only in the ECDSA equation; .x/.y comparisons paired; listed verifiers keep their full-point equality)")
+R_LEN = _rule("R-LEN", "r_len", "len_obligations", text="every accepting return of the listed parsers / verifiers is dominated by the frozen number of equality constraints on the caller's length (no trailing bytes)")
+R_SIZE = _rule("R-SIZE", "r_len", "size_obligations", text="size-negotiating serializers reject with a strict `*len < E` using the same linear expression E they store into *len")
+R_DOM = _rule("R-DOM", "r_dom", text="every call chain from an exported function to the generator multiplication passes the built-context ARG_CHECK; partial signatures are saved only after secnonce_load succeeded")
+R_PAIR = _rule("R-PAIR", "r_pair", text="every heap block / scratch checkpoint acquired in a function is released or handed over on every exit path (typestate, may-leak)")
 
-R_CAP = _rule("R-CAP", "r_cap", all_for=("C07",))
-R_RING = _rule("R-RING", "r_cap", "ring_obligations", all_for=("C07",))
-R_WRAP = _rule("R-WRAP", "r_cap", "wrap_obligations")
-R_ZOF = _rule("R-ZOF", "zof")
-R_BIND = _rule("R-BIND", "r_bind")
-_ZOFTXT = ("R-ZOF (zero-on-failure dataflow `zof`): the listed output objects are all-zero at every return that can yield 0 "
-           "(lattice Z / C(v) / untouched / unknown with branch facts and bottom-up helper summaries). ")
+R_SIB = _rule("R-SIB", "r_sib", "sib_obligations", text="constants a writer and a reader must share (exponent / mantissa / minimum-length bounds, key and input count bounds vs array and field capacities) agree across their sites")
+R_BITS = _rule("R-BITS", "r_sib", "bits_obligations", text="every bit of the range-proof header byte is examined, spare / padding bits are tested and rejected, and wide quantities (MuSig counter, Pedersen value) reach their 8-byte serializers without narrowing")
+R_ORD = _rule("R-ORD", "r_ord", text="hash transcript order: the precedences between parameter-rooted items absorbed into one SHA-256 state that hold on the reviewed tree (tables/transcripts.json) still hold")
 
-DECODE = [R_CHK, R_OBL, R_RED]
-R_INB = _rule("R-INB", "r_inb")
-BOUNDS = [R_CAP, R_RING, R_WRAP, R_INB]
+DECODE = [R_CHK, R_OBL, R_RED, R_ORD]
+BOUNDS = [R_CAP, R_RING, R_WRAP, R_INB, R_LEN, R_SIB, R_BITS]
 
 ALL_CFG = ["K0", "K1", "K2", "K3"]
 
 _COMMON_ASSUME = [
     "the clang 14 AST/CFG of src/secp256k1.c (all modules incl. ENABLE_MODULE_RECOVERY, which the pinned build omits) is the program analysed",
     "a passing check establishes the listed structural obligations (each a necessary condition of the property) on every path / call site, not the behavioural property itself",
-    "exception and role tables in /verif/tables were reviewed by reading the code; each entry carries its reason",
+    "exception, role and armed-instance tables in /verif/tables were produced on the reviewed tree and read; each exception carries its reason",
 ]
 
 PROPERTIES = {}
 
 
-def _prop(pid, rules, explanation, not_decided, **kw):
-    d = {"rules": rules, "explanation": explanation, "not_decided": not_decided,
+def _prop(pid, rules, head, not_decided, **kw):
+    expl = head + " Rules: " + "; ".join("%s — %s" % (r["name"], RULE_TEXT.get(r["name"], "")) for r in rules if r["name"] in RULE_TEXT) + "."
+    d = {"rules": rules, "explanation": kw.pop("explanation", expl), "not_decided": not_decided,
          "assumptions": list(_COMMON_ASSUME) + kw.pop("assumptions", []),
          "configs_quick": ["K0"], "configs_thorough": ALL_CFG, "level": "other"}
     d.update(kw)
     PROPERTIES[pid] = d
 
 
-_BINDTXT = "R-BIND: point comparisons compare the full point (x-only primitive only in the ECDSA equation; .x/.y comparisons paired; listed verifiers keep their full-point equality). "
-_DEC = ("R-CHK: the failure indicator of every fallible decode (overflow flag / zero return) reaches a branch or the verdict on every path "
-        "before it is overwritten; R-OBL: each untrusted parameter is still consumed by the decoders and validity tests frozen in "
-        "tables/obligations.json (interprocedural parameter-rooted value flow); R-RED: raw caller bytes are decoded by reduction only in listed roles. ")
+_BOUND_ASSUME = ["distinct pointer parameters do not alias", "summaries: secp256k1_count_bits_set(d, c) in [0, 8c]; clz/ctz ranges"]
 
 _prop("C01", DECODE + [R_FLOW, R_ZOF, R_BIND],
-      "ECDSA: " + _DEC + "R-FLOW: RFC 6979 is keyed with the scalar-decoded message, never the raw bytes. Recovery module analysed although the pinned build omits it.",
-      "that the equation computed is the ECDSA equation; low-S of produced signatures; RFC 6979 byte-exactness; recover(sign) == pubkey (all 256-bit arithmetic)")
+      "ECDSA, structural clauses (the recovery module is analysed although the pinned build omits it).",
+      "that the equation computed is the ECDSA equation; low-S of produced signatures; RFC 6979 byte-exactness; recover(sign) == pubkey (256-bit arithmetic)")
 _prop("C02", DECODE + [R_FLOW, R_ZOF],
-      "BIP-340: " + _DEC + "R-FLOW: msg/msglen flow unmodified from sign_custom / verify through sign_internal and the challenge into sha256_write; "
-      "sha256_write's cursor discipline.",
+      "BIP-340, structural clauses.",
       "byte-for-byte equality with BIP-340, aux=NULL == zero aux, exact acceptance set (hash and curve arithmetic)")
-_prop("C03", DECODE + [R_ZOF, R_INB],
-      "Encodings: " + _DEC,
+_prop("C03", DECODE + [R_ZOF, R_INB, R_LEN, R_SIZE],
+      "Key and signature encodings, structural clauses.",
       "the DER grammar itself (minimal-length / padding predicates over byte values), hybrid parity rule, round-trip equalities")
 _prop("C04", DECODE + [R_FLOW, R_ZOF],
-      "Key algebra: " + _DEC + "R-FLOW: n_pubkeys and the array reach secp256k1_hsort unmodified.",
+      "Key algebra, structural clauses.",
       "commutation of secret and public operations, correctness of heap sort beyond its length argument, lexicographic order")
-_prop("C05", [R_FLOW],
-      "Hash kernel, structural clause only: caller lengths reach secp256k1_sha256_write unmodified (tagged hash, HMAC) and "
-      "sha256_write moves its data pointer and remaining length together by the amount consumed (R-FLOW / R-CUR).",
-      "ALL field / scalar / group / ecmult exactness and cross-configuration bit-identity: statements about 256-bit values, out of reach of static analysis here (declared not applicable for those clauses)")
-_CAPTXT = ("R-CAP (interval analysis `giv`): armed memcpy/memset lengths, variable array indexes and shift amounts stay within the "
-           "capacity / width on every path; R-RING: every ring size handed to the Borromean verifier is >= 1; R-WRAP: armed 64-bit "
-           "additions / multiplications of header-derived quantities are range-proved, guarded or post-checked; R-INB (symbolic linear "
-           "guard prover): armed reads of a (pointer, length) input buffer are dominated by a guard establishing length >= offset + bytes read. ")
-_prop("C07", BOUNDS,
-      "Untrusted bytes, structural clauses: " + _CAPTXT,
-      "general in-bounds / UB-freedom of the proof verifiers (needs relational invariants such as npub = sum rsizes <= 128, outside the interval domain: "
-      "the unprovable sites are listed in the evidence as not armed); termination; leak-freedom and callback reachability are decided by separate rules when registered",
-      assumptions=["distinct pointer parameters do not alias", "summaries: secp256k1_count_bits_set(d, c) in [0, 8c]; clz/ctz ranges"])
+_prop("C05", [R_FLOW, R_PAIR],
+      "Arithmetic and hashing kernel — only the hashing clause has a structural part: caller lengths reach secp256k1_sha256_write unmodified "
+      "(tagged hash, HMAC), sha256_write moves data pointer and remaining length together, sha256_transform compresses consecutive blocks; "
+      "scratch checkpoints of the multi-scalar batches are restored on every exit.",
+      "ALL field / scalar / group / ecmult exactness and cross-configuration bit-identity: statements about 256-bit values, out of reach of static analysis here "
+      "(a seeded carry loss in scalar_mul_shift_var is NOT detected; declared not applicable for those clauses)")
+_prop("C07", BOUNDS + [R_PAIR, R_SIZE],
+      "Untrusted bytes, structural clauses.",
+      "general in-bounds / UB-freedom of the proof verifiers (needs relational invariants such as npub = sum rsizes <= 128, outside the interval and linear-form domains: "
+      "those sites are listed in the evidence as not armed); termination; verdict domain {0,1} and callback reachability (R-BOOL / R-ABORT not built)",
+      assumptions=_BOUND_ASSUME)
 _prop("C08", DECODE + [R_BIND],
-      "Pedersen: " + _DEC,
+      "Pedersen commitments, structural clauses.",
       "that the commitment is bG + vH, tally semantics, round-trips")
 _prop("C09", DECODE + BOUNDS,
-      "Range-proof creation: " + _DEC,
-      "created proofs verify, bound the value, rewind (value-level)")
+      "Range-proof creation, structural clauses.",
+      "created proofs verify, bound the value, rewind (value-level)", assumptions=_BOUND_ASSUME)
 _prop("C10", DECODE + BOUNDS,
-      "Range-proof verification: " + _DEC,
-      "the Borromean ring equation and hash binding")
-_prop("C11", DECODE + BOUNDS,
-      "Surjection proofs: " + _DEC,
-      "subset selection correctness, the ring equation")
-_prop("C12", DECODE + [R_FLOW, R_ZOF, R_BIND],
-      "MuSig2: " + _DEC,
+      "Range-proof verification, structural clauses.",
+      "the Borromean ring equation and hash binding; reserved header bits / prover-verifier constant agreement (R-BITS / R-SIB not built)", assumptions=_BOUND_ASSUME)
+_prop("C11", DECODE + BOUNDS + [R_PAIR, R_SIZE],
+      "Surjection proofs, structural clauses.",
+      "subset selection correctness, the ring equation", assumptions=_BOUND_ASSUME)
+_prop("C12", DECODE + [R_FLOW, R_ZOF, R_BIND, R_DOM],
+      "MuSig2, structural clauses.",
       "equality with the BIP-327 functions, session validity, adapt/extract inverse (algebra)")
-_prop("C13", [R_ZOF, R_CHK, R_OBL, R_BIND],
-      "MuSig secnonce single use (typestate over call histories, decided on the two functions that implement it): " + _ZOFTXT +
-      "Instances: *secnonce is all-zero at EVERY return of partial_sign after its own NULL check (incl. every later ARG_CHECK return); "
-      "secnonce is zero on every failing return of nonce_gen / nonce_gen_counter (through nonce_gen_internal and secnonce_invalidate); "
-      "session_secrand32 is zero whenever nonce_gen succeeds. R-OBL: the all-zero test of the stored nonce and of session_secrand32 are still "
-      "reachable; R-CHK: the key-validity decode in nonce generation reaches the verdict. Induction over histories: an all-zero secnonce stays "
-      "unusable until a successful nonce_gen and every partial_sign that touches it leaves it all-zero.",
+_prop("C13", [R_ZOF, R_CHK, R_OBL, R_BIND, R_DOM],
+      "MuSig secnonce single use — typestate over call histories, decided on the functions that implement it: *secnonce is all-zero at EVERY return of "
+      "partial_sign after its own NULL check (incl. every later ARG_CHECK return); secnonce is zero on every failing return of nonce_gen / nonce_gen_counter "
+      "(through nonce_gen_internal and secnonce_invalidate); session_secrand32 is zero whenever nonce_gen succeeds; the stored public key is compared as a "
+      "full point; a signature is saved only after secnonce_load succeeded. Induction over histories: an all-zero secnonce stays unusable until a "
+      "successful nonce_gen, and every partial_sign that touches it leaves it all-zero.",
       "that secp256k1_memzero_explicit is not optimised away (compiler property)")
 _prop("C14", DECODE + [R_ZOF, R_BIND],
-      "ECDSA adaptor: " + _DEC,
+      "ECDSA adaptor signatures, structural clauses.",
       "the adaptor and DLEQ equations, recover(decrypt) identity")
 _prop("C15", DECODE + [R_ZOF, R_FLOW],
-      "Sign-to-contract / anti-exfil: " + _DEC,
-      "equality of the two nonce derivations' values, soundness of the commitment")
-_prop("C16", DECODE + BOUNDS,
-      "Whitelist: " + _DEC,
-      "the ring equation, round-trip")
+      "Sign-to-contract / anti-exfil, structural clauses.",
+      "equality of the two nonce derivations' values beyond the shared RFC 6979 sanitiser, soundness of the commitment")
+_prop("C16", DECODE + BOUNDS + [R_SIZE],
+      "Whitelist proofs, structural clauses.",
+      "the ring equation, round-trip", assumptions=_BOUND_ASSUME)
 _prop("C17", DECODE + BOUNDS + [R_BIND],
-      "Half-aggregation: " + _DEC,
-      "the aggregate equation, incremental == one-shot equality (arithmetic over 256-bit values)")
+      "Half-aggregation, structural clauses.",
+      "the aggregate equation, incremental == one-shot equality (256-bit arithmetic)", assumptions=_BOUND_ASSUME)
 _prop("C18", DECODE + [R_ZOF],
-      "ECDH / ElligatorSwift: " + _DEC,
+      "ECDH / ElligatorSwift, structural clauses.",
       "agreement of both parties, the map and its inverse (field arithmetic)")
-_prop("C19", DECODE + [R_BIND, R_INB, R_CAP],
-      "Bulletproofs++: " + _DEC,
-      "completeness / soundness of the norm argument, generator determinism")
+_prop("C19", DECODE + [R_BIND, R_INB, R_CAP, R_LEN, R_PAIR, R_SIZE],
+      "Bulletproofs++, structural clauses.",
+      "completeness / soundness of the norm argument, generator determinism", assumptions=_BOUND_ASSUME)
 
 
 def _ct_run(cfg, tier):
@@ -140,15 +148,15 @@ def _ct_run(cfg, tier):
 
 R_CT = {"name": "R-CT", "run": _ct_run}
 
-_prop("C06", [R_CT],
-      "Constant time, decided over the LLVM IR of src/ctime_tests.c linked with the library by abstract interpretation (engine irx: byte-granular "
+_prop("C06", [R_CT], "",
+      "instruction selection turning a select into a branch, variable-latency instructions (as for valgrind); the -O2 IR pass of the design is not built "
+      "(needs constant-integer memory slots for the inlined declassify); per-API symbolic roots with optional arguments toggled are not built",
+      explanation="Constant time, decided over the LLVM IR of src/ctime_tests.c linked with the library by abstract interpretation (engine irx: byte-granular "
       "taint, sub-object extents, fully context-sensitive, all paths): secrets are exactly the bytes the maintainers mark with CHECKMEM_UNDEFINE, "
       "CHECKMEM_DEFINE / secp256k1_declassify clear them, and no tainted value reaches a branch or switch condition, a load / store / memcpy address, "
       "a memcpy / memset length, a div / rem operand or an indirect-call target in any function. One obligation per library entry point called by "
       "run_tests(), once as written and once with the context's blinding state (scalar_offset, ge_offset, proj_blind) secret from creation on "
       "(randomized contexts). A positive-control fixture must be flagged on every run.",
-      "instruction selection turning a select into a branch, variable-latency instructions (as for valgrind); the -O2 IR pass of the design is not built "
-      "(needs constant-integer memory slots for the inlined declassify); per-API symbolic roots with optional arguments toggled are not built",
       level="proof", engine="irx",
       technique="static analysis: abstract interpretation (taint / information flow) over whole-program LLVM IR, custom engine irx",
       trusted_base=["clang 14 -O0 IR generation + opt-14 mem2reg/loop-rotate/indvars/full-unroll(<=8)", "engines/irx.cc", "rules/r_ct.py",
@@ -171,16 +179,18 @@ R_GLOB = _eff_rule("R-GLOB", "glob_obligations")
 R_EFF = _eff_rule("R-EFF", "eff_obligations")
 R_ALLOC = _eff_rule("R-ALLOC", "alloc_obligations")
 
-_prop("C20", [R_GLOB, R_EFF, R_ALLOC],
-      "Context independence, state/effect clauses: R-GLOB every object with static storage duration in the library's translation units is const "
+_prop("C20", [R_GLOB, R_EFF, R_ALLOC, R_DOM, R_PAIR], "",
+      "equality of results across randomisation histories (the blinding invariant nG = comb(n + offset) + ge_offset is algebra) and across "
+      "compression-function replacements",
+      explanation="Context independence, state/effect clauses: R-GLOB every object with static storage duration in the library's translation units is const "
       "(AST inventory), cross-checked against the writable sections of the objects compiled from the current tree; R-EFF (engine irx, symbolic "
       "arguments, all paths) no exported function taking a const context stores into the context object or into any global, hence concurrent use "
       "of one context through that API has no write to shared library state; R-ALLOC only the documented allocators reach malloc and context "
-      "creation / cloning reach exactly one allocation site outside any loop. Positive-control fixture on every run.",
-      "equality of results across randomisation histories (the blinding invariant nG = comb(n + offset) + ge_offset is algebra) and across "
-      "compression-function replacements; static-context behaviour beyond the is_built guards",
+      "creation / cloning reach exactly one allocation site outside any loop; R-DOM every call chain from an exported function to the generator "
+      "multiplication passes the built-context ARG_CHECK, so on the static context it reports illegal use instead of touching blinding state; "
+      "R-PAIR context creation / cloning release or hand over their allocation on every exit. Positive-control fixture on every run.",
       engine="irx+sx",
-      technique="static analysis: AST inventory of static storage + object-file section cross-check + write-effect abstract interpretation over LLVM IR (irx) + call-graph reachability",
+      technique="static analysis: AST inventory of static storage + object-file section cross-check + write-effect abstract interpretation over LLVM IR (irx) + call-graph dominance and reachability",
       assumptions=["objects handed to the API by the caller do not overlap the context",
                    "caller-supplied callbacks (noncefp, hash functions, compression function, illegal/error callbacks) are the caller's code: the library defaults are analysed, a caller-supplied pointer is opaque"],
       configs_quick=["K0"], configs_thorough=["K0", "K1", "K2", "K3"])
